@@ -69,7 +69,12 @@ def plant(fault, level, delta, w, n):
     elif fault == 11:  # out-of-range index
         add(Inst("bad", cell, {"a": bus, "b": Idx(Sig("k"), w + abs(delta) - 1 if delta > 0 else -w - abs(delta))}))
     elif fault == 12:  # slice with a bound beyond [-w, w] (of fitting width) or empty
-        add(Inst("bad", cell, {"a": bus, "b": Slc(Sig("big"), n * w + abs(delta) - 1, n * w + abs(delta)) if delta > 0 else Slc(Sig("k"), 1, 1)}))
+        if delta > 0 and w >= 2:
+            add(Inst("bad", cell, {"a": bus, "b": Slc(Sig("big"), n * w + abs(delta) - 1, n * w + abs(delta))}))
+        elif w >= 2:  # an empty slice hidden in a concatenation whose other parts make up the port width
+            add(Inst("bad", cell, {"a": Cat((Sig("k"), Slc(Sig("big"), 2, 2))), "b": g}))
+        else:
+            add(Inst("bad", cell, {"a": bus, "b": Slc(Sig("k"), 1, 1)}))
     elif fault == 13:  # orphan signal (no owner / other owner)
         add(Inst("bad", cell, {"a": Orphan(0 if delta > 0 else 1, w), "b": g}))
     elif fault == 14:  # orphan inside a concatenation / anonymous bundle
